@@ -379,57 +379,7 @@ func checkC16(c *Check, p *Program) {
 	checkUDPSlice(c, p, "C16.T1", udp)
 
 	// ---- T3 one frame per Send
-	sizeFn, packFn := p.Func("knx/knxnet", "Size"), p.Func("knx/knxnet", "Pack")
-	nSend := 0
-	for _, typ := range []string{"TunnelSocket", "RouterSocket"} {
-		fn := p.Method("knx/knxnet", typ, "Send")
-		if fn == nil {
-			c.Fail("C16.T3", "knxnet."+typ+".Send", "", "method not found")
-			continue
-		}
-		nSend++
-		name := FuncName(fn)
-		c.Analysed("functions", name)
-		var mk *ssa.MakeSlice
-		var pack *ssa.Call
-		var writes []*ssa.Call
-		instrsOf(fn, func(in ssa.Instruction) {
-			switch x := in.(type) {
-			case *ssa.MakeSlice:
-				mk = x
-			case *ssa.Call:
-				if x.Common().StaticCallee() == packFn {
-					pack = x
-				}
-				if o := calleeObj(x); o != nil && (o.Name() == "Write" || o.Name() == "WriteToUDP" || o.Name() == "WriteTo" || o.Name() == "WriteMsgUDP") {
-					writes = append(writes, x)
-				}
-			}
-		})
-		okMk := false
-		if mk != nil {
-			l := mk.Len
-			if cv, ok := l.(*ssa.Convert); ok {
-				l = cv.X
-			}
-			if call, ok := l.(*ssa.Call); ok && call.Common().StaticCallee() == sizeFn && call.Common().Args[0] == ssa.Value(fn.Params[1]) {
-				okMk = true
-			}
-		}
-		c.Decide(okMk, "C16.T3", name+" fresh buffer of Size(payload)", p.Pos(fn.Pos()), "make([]byte, Size(payload)) per call", "Send does not allocate a fresh buffer of exactly Size(payload) per call (a shared buffer is torn by concurrent senders; another size breaks the header's total length)")
-		okPack := pack != nil && mk != nil && pack.Common().Args[0] == ssa.Value(mk) && pack.Common().Args[1] == ssa.Value(fn.Params[1])
-		c.Decide(okPack, "C16.T3", name+" packs the payload into that buffer", p.Pos(fn.Pos()), "Pack(buffer, payload)", "the frame is not packed into the freshly allocated buffer")
-		c.Exact("C16.T3", name+" write calls", len(writes), 1, p.Pos(fn.Pos()))
-		for _, w := range writes {
-			args := callArgs(w)
-			okW := len(args) >= 1 && mk != nil && args[0] == ssa.Value(mk) && pack != nil && instrDominates(pack, w)
-			c.Decide(okW, "C16.T3", name+" writes the whole buffer once", p.InstrPos(w), "the packed slice itself, after Pack", "the bytes written are not exactly the packed buffer (re-sliced, written before packing, or another slice)")
-			min, max := pathCount(fn.Blocks[0], func(in ssa.Instruction) bool { return in == ssa.Instruction(w) }, nil)
-			c.Decide(min == 1 && max == 1, "C16.T3", name+" one write on every path", p.InstrPos(w), "exactly one", fmt.Sprintf("%d..%d writes per Send", min, max))
-			c.Decide(!inAnyLoop(w.Block()), "C16.T3", name+" write not in a loop", p.InstrPos(w), "single contiguous write", "the frame is written piecewise in a loop: concurrent senders interleave")
-		}
-	}
-	c.Floor("C16.T3", "socket Send implementations", nSend, 2)
+	checkSocketSend(c, p, "C16.T3")
 
 	// ---- T4 constructors and Close
 	cg := p.CallGraph()
@@ -696,4 +646,62 @@ func checkHostInfo(c *Check, p *Program) {
 		}
 	})
 	c.Decide(usesTo4 && storesPort, "C16.T5", FuncName(hi)+" copies IPv4 address and port", p.Pos(hi.Pos()), "To4() and Port stored", "address or port is not taken from the socket address")
+}
+
+// checkSocketSend: both Socket.Send implementations allocate a fresh buffer of
+// Size(payload), pack into it and hand exactly that slice to one write call on
+// every path (shared by C15.3 and C16.T3).
+func checkSocketSend(c *Check, p *Program, rule string) {
+	sizeFn, packFn := p.Func("knx/knxnet", "Size"), p.Func("knx/knxnet", "Pack")
+	nSend := 0
+	for _, typ := range []string{"TunnelSocket", "RouterSocket"} {
+		fn := p.Method("knx/knxnet", typ, "Send")
+		if fn == nil {
+			c.Fail(rule, "knxnet."+typ+".Send", "", "method not found")
+			continue
+		}
+		nSend++
+		name := FuncName(fn)
+		c.Analysed("functions", name)
+		var mk *ssa.MakeSlice
+		var pack *ssa.Call
+		var writes []*ssa.Call
+		instrsOf(fn, func(in ssa.Instruction) {
+			switch x := in.(type) {
+			case *ssa.MakeSlice:
+				mk = x
+			case *ssa.Call:
+				if x.Common().StaticCallee() == packFn {
+					pack = x
+				}
+				if o := calleeObj(x); o != nil && (o.Name() == "Write" || o.Name() == "WriteToUDP" || o.Name() == "WriteTo" || o.Name() == "WriteMsgUDP") {
+					writes = append(writes, x)
+				}
+			}
+		})
+		okMk := false
+		if mk != nil {
+			l := mk.Len
+			if cv, ok := l.(*ssa.Convert); ok {
+				l = cv.X
+			}
+			if call, ok := l.(*ssa.Call); ok && call.Common().StaticCallee() == sizeFn && call.Common().Args[0] == ssa.Value(fn.Params[1]) {
+				okMk = true
+			}
+		}
+		c.Decide(okMk, rule, name+" fresh buffer of Size(payload)", p.Pos(fn.Pos()), "make([]byte, Size(payload)) per call", "Send does not allocate a fresh buffer of exactly Size(payload) per call (a shared buffer is torn by concurrent senders; another size breaks the header's total length)")
+		okPack := pack != nil && mk != nil && pack.Common().Args[0] == ssa.Value(mk) && pack.Common().Args[1] == ssa.Value(fn.Params[1])
+		c.Decide(okPack, rule, name+" packs the payload into that buffer", p.Pos(fn.Pos()), "Pack(buffer, payload)", "the frame is not packed into the freshly allocated buffer")
+		c.Exact(rule, name+" write calls", len(writes), 1, p.Pos(fn.Pos()))
+		for _, w := range writes {
+			args := callArgs(w)
+			okW := len(args) >= 1 && mk != nil && args[0] == ssa.Value(mk) && pack != nil && instrDominates(pack, w)
+			c.Decide(okW, rule, name+" writes the whole buffer once", p.InstrPos(w), "the packed slice itself, after Pack", "the bytes written are not exactly the packed buffer (re-sliced, written before packing, or another slice)")
+			min, max := pathCount(fn.Blocks[0], func(in ssa.Instruction) bool { return in == ssa.Instruction(w) }, nil)
+			c.Decide(min == 1 && max == 1, rule, name+" one write on every path", p.InstrPos(w), "exactly one", fmt.Sprintf("%d..%d writes per Send", min, max))
+			c.Decide(!inAnyLoop(w.Block()), rule, name+" write not in a loop", p.InstrPos(w), "single contiguous write", "the frame is written piecewise in a loop: concurrent senders interleave")
+		}
+	}
+	c.Floor(rule, "socket Send implementations", nSend, 2)
+
 }
